@@ -609,18 +609,26 @@ pub fn exec(sc: &Scenario, opts: &ExecOpts) -> RunOutcome {
     });
     let mut out = RunOutcome::default();
     if n > 1 {
-        // each slot carries one text for the whole run: threads only ever read it
-        let mut slot_text: HashMap<u8, &str> = HashMap::new();
-        for c in sc.calls() {
-            if let (Some(k), Some(t)) = (c.slot, c.text.as_ref()) {
-                if let Some(prev) = slot_text.get(&k) {
-                    if *prev != t.as_str() {
-                        out.harness_error = Some("two texts in one slot of a multi-thread scenario".into());
-                        return out;
+        // a slot used by several threads carries one text for the whole run (threads only read it);
+        // a slot used by one thread is rewritten by that thread alone, between its own calls
+        let mut users: HashMap<u8, Vec<(usize, &str)>> = HashMap::new();
+        for (tid, prog) in sc.threads.iter().enumerate() {
+            for op in prog {
+                if let Op::Call(c) = op {
+                    if let (Some(k), Some(t)) = (c.slot, c.text.as_ref()) {
+                        users.entry(k % SLOTS as u8).or_default().push((tid, t.as_str()));
                     }
                 }
-                slot_text.insert(k, t);
-                place_in_slot(k as usize, t);
+            }
+        }
+        for (k, us) in &users {
+            let shared = us.iter().any(|(t, _)| *t != us[0].0);
+            if shared {
+                if us.iter().any(|(_, text)| *text != us[0].1) {
+                    out.harness_error = Some("two texts in one slot shared by several threads".into());
+                    return out;
+                }
+                place_in_slot(*k as usize, us[0].1);
             }
         }
     }
